@@ -8,6 +8,7 @@ import (
 	"math/big"
 	"math/rand"
 	"strings"
+	"time"
 
 	"github.com/gorilla/websocket"
 )
@@ -45,23 +46,26 @@ type rOpts struct {
 }
 
 type rGen struct {
-	rng        *rand.Rand
-	sc         *scenario
-	log        *evlog
-	opt        rOpts
-	srv        bool // reader is the server (peer frames are masked)
-	nego       bool
-	rbuf       int
-	limit      int64
-	frames     []gFrame
-	msgs       []gMsg
-	stream     []byte
-	cut        int    // bytes actually delivered by the transport
-	violAt     int    // index of the violating frame, -1
-	viol       string // description
-	topBit     bool   // the violation is a 64-bit length with the top bit set
-	term       error
-	hp, hq, hc string
+	rng         *rand.Rand
+	sc          *scenario
+	log         *evlog
+	opt         rOpts
+	srv         bool // reader is the server (peer frames are masked)
+	nego        bool
+	rbuf        int
+	limit       int64
+	badErrSeen  bool
+	localClosed bool
+	nonMinCtl   bool
+	frames      []gFrame
+	msgs        []gMsg
+	stream      []byte
+	cut         int    // bytes actually delivered by the transport
+	violAt      int    // index of the violating frame, -1
+	viol        string // description
+	topBit      bool   // the violation is a 64-bit length with the top bit set
+	term        error
+	hp, hq, hc  string
 	// runtime
 	c        *websocket.Conn
 	t        *TConn
@@ -164,6 +168,9 @@ func (g *rGen) addFrame(f encFrame, msg int) {
 	}
 	if g.opt.lenient && g.rng.Intn(10) == 0 {
 		f.lenClass = 1 + g.rng.Intn(2)
+		if f.op >= 8 {
+			g.nonMinCtl = true // not a conformant frame (RFC 6455 5.2: minimal length encoding); the reader refuses it
+		}
 	}
 	b := f.encode()
 	gf := gFrame{enc: f, msg: msg, start: len(g.stream), end: len(g.stream) + len(b)}
@@ -476,6 +483,13 @@ func (g *rGen) setup() {
 	if g.opt.together && len(g.t.chunks) > 0 && r.Intn(2) == 0 {
 		g.t.together = true
 	}
+	if g.opt.mode == "cut" && termTok != "eof" && g.cut < len(g.stream) && r.Intn(2) == 0 {
+		// a transient fault: after the error the transport would deliver the rest of the stream. The
+		// reader has latched the error and must never read again, so the model (whose terminal error is
+		// sticky) sees the same script.
+		g.t.after = g.chunking(append([]byte(nil), g.stream[g.cut:]...))
+		g.sc.tag("transient")
+	}
 	if g.limitMode() {
 		// choose a limit relative to some message size
 		m := g.msgs[r.Intn(len(g.msgs))]
@@ -569,6 +583,16 @@ func (g *rGen) setup() {
 		g.sc.emit(fmt.Sprintf("swd c0 %d", d), "ok")
 		g.sc.tag("stale-write-deadline")
 	}
+	if g.opt.mode == "conform" && r.Intn(8) == 0 {
+		// the application has already sent its own close frame and keeps reading (the closing handshake):
+		// pings are still handed to the handler, whose best-effort pong is refused with ErrCloseSent and
+		// must not disturb the read; the peer's close still reaches the close handler
+		p := []byte{0x03, 0xe8}
+		err := g.c.WriteControl(websocket.CloseMessage, p, time.Time{})
+		g.sc.emit(fmt.Sprintf("wc c0 8 %s 0", hx(p)), g.line(resStr(err)))
+		g.sc.tag("local-close-first")
+		g.localClosed = true
+	}
 	if g.opt.wfaults && r.Intn(2) == 0 {
 		k := r.Intn(4)
 		g.t.faults[k] = fault{kind: "fail", id: 60 + k}
@@ -601,6 +625,8 @@ func (g *rGen) opNextReader() bool {
 	t, rd, err := g.c.NextReader()
 	if err != nil {
 		n := errName(err)
+		g.t.apiFailed = true
+		g.noteErr(n)
 		if g.firstErr == "" {
 			g.firstErr = n
 		} else if n != g.firstErr {
@@ -633,13 +659,35 @@ func (g *rGen) opNextReader() bool {
 }
 
 // record what a reader delivered and judge it against the encoded message
+// noteErr: which errors a stream without an injected violation may produce at all (C03: a conformant
+// stream is decoded whatever the buffer size, fragmentation and interleaved controls)
+func (g *rGen) noteErr(errn string) {
+	if g.violAt >= 0 || g.nonMinCtl || errn == "ok" || errn == "eof" {
+		return
+	}
+	bad := strings.HasPrefix(errn, "proto:") || errn == "internalUnexpectedData" ||
+		(!g.nego && (strings.HasPrefix(errn, "other:") || errn == "ioUnexpectedEOF" || errn == "flateTail")) ||
+		(errn == "readLimit" && g.limit <= 0) || errn == "closeSent" || errn == "writeTimeout"
+	if bad && !g.badErrSeen {
+		g.badErrSeen = true
+		g.sc.violate("a stream of conformant frames made the reader fail with %q (read buffer %d, server=%v)", errn, g.rbuf, g.srv)
+	}
+}
+
 func (g *rGen) delivered(h int, bs []byte, eof bool, errn string) {
 	g.rdata[h] = append(g.rdata[h], bs...)
+	g.noteErr(errn)
 	mi := g.rmsg[h]
 	if mi >= len(g.msgs) {
 		return
 	}
 	m := g.msgs[mi]
+	// C05: a message that had fully arrived before the failing transport read is reported complete,
+	// never as cut off (EOF -> 1006 "unexpected EOF") or with the transport's error
+	if (strings.HasPrefix(errn, "transport:") || strings.HasPrefix(errn, "close:1006:")) && g.violAt < 0 &&
+		m.last >= 0 && g.frames[m.last].end <= g.cut && !(g.t.together && g.t.term != nil) && !m.compressed {
+		g.sc.violate("message %d had fully arrived (its last byte is at offset %d, the transport ended at %d) but reading it failed with %s", mi, g.frames[m.last].end, g.cut, errn)
+	}
 	if !bytes.HasPrefix(m.plain, g.rdata[h]) {
 		g.sc.violate("message %d: delivered bytes are not a prefix of the encoded payload (delivered %d bytes)", mi, len(g.rdata[h]))
 	}
@@ -738,6 +786,7 @@ func (g *rGen) opReadMessage() bool {
 	}
 	if err != nil && t <= 0 {
 		n := errName(err)
+		g.t.apiFailed = true
 		if g.firstErr == "" {
 			g.firstErr = n
 		} else if n != g.firstErr {
@@ -1057,6 +1106,11 @@ func readerOracle(g *rGen) {
 				}
 			}
 		}
+	}
+	// C05: once NextReader has returned an error the reader never reads from the transport again (the
+	// error is permanent even if the fault was transient and the transport has more bytes)
+	if g.t.readAfterErr > 0 {
+		sc.violate("the reader read from the transport again (%d reads) after NextReader had returned %q: the error is not permanent", g.t.readAfterErr, g.firstErr)
 	}
 	// after a violation nothing of it or after it may surface
 	for h, d := range g.rdata {
